@@ -16,7 +16,7 @@ pub const INFO: PropInfo = PropInfo {
     quick_runs: 10_000,
     thorough_runs: 300_000,
     rule: "each run = one generated directory tree on the real file system (nesting 0..3, 0..12 files, names over the route alphabet incl. names colliding after extension stripping and directory names with dots, all 16 supported extensions, empty / binary / UTF-8 contents, index.html at any level, files next to the directory) \
-           mounted with a generated omit-extension setting at a mount route of depth 0..3 next to an ordinary route, then 4..20 requests (every file, every directory with and without trailing slash, HEAD, traversal and encoding variants, stripped/added extensions, outside names, names added later) \
+           mounted with a generated omit-extension setting at a mount route of depth 0..3 next to an ordinary route (in a quarter of the runs next to a second directory with the same relative paths, sizes and modification times but other bytes), then 4..20 requests (every file, every directory with and without trailing slash, HEAD, traversal and encoding variants, stripped/added extensions, outside names, names added later) \
            interleaved with post-start-up mutations of the tree (overwrite, truncate, delete, rename, add, replace by directory); non-trivial = at least one file was served and one path refused; distinct = distinct hash of (tree, settings, requests, mutations)",
     state_measure: "(request kind, outcome, mutation-before-request kind) combinations",
     assumptions: &[
@@ -24,7 +24,7 @@ pub const INFO: PropInfo = PropInfo {
         "configurations the model itself rejects (two files with one route, unsupported or missing extension, non-UTF-8 text file, a name that is not a valid route segment) are expected to panic at start-up and are discarded, not counted",
         "read_dir order only permutes registration order (which by C01 must not matter) and never enters the trace",
     ],
-    expected_probes: &["c19.file_served", "c19.index_at_directory_path", "c19.omitted_extension", "c19.traversal_refused", "c19.outside_file_refused", "c19.mutation_before_request", "c19.added_later_refused", "c19.head", "c19.rejected_config_panicked", "c19.dotted_directory_name", "c19.empty_file"],
+    expected_probes: &["c19.file_served", "c19.index_at_directory_path", "c19.omitted_extension", "c19.traversal_refused", "c19.outside_file_refused", "c19.mutation_before_request", "c19.added_later_refused", "c19.head", "c19.rejected_config_panicked", "c19.dotted_directory_name", "c19.empty_file", "c19.two_directories_mounted", "c19.same_path_size_mtime_other_bytes"],
 };
 
 #[derive(Clone, Debug, Serialize, Deserialize)]
@@ -58,6 +58,29 @@ pub struct Scenario {
     pub mount: String,
     pub omit: Vec<String>,
     pub reqs: Vec<Req>,
+    /// a second directory mounted in the same application: same relative paths and sizes, other bytes
+    #[serde(default)]
+    pub second: Option<Second>,
+}
+#[derive(Clone, Debug, Serialize, Deserialize)]
+pub struct Second {
+    pub mount: String,
+    /// every file of both trees carries the same modification time (reproducible archives, `cp -p`)
+    pub same_mtime: bool,
+}
+
+/// same length, other bytes (ASCII letters and digits rotate within their class; UTF-8 validity is kept)
+pub fn alter(content: &[u8]) -> Vec<u8> {
+    content
+        .iter()
+        .map(|b| match *b {
+            b'a'..=b'y' | b'A'..=b'Y' | b'0'..=b'8' => b + 1,
+            b'z' => b'a',
+            b'Z' => b'A',
+            b'9' => b'0',
+            o => o,
+        })
+        .collect()
 }
 
 const EXTS: [(&str, &str); 16] = [
@@ -136,8 +159,9 @@ pub fn generate(_cfg: &RunCfg, _out: &mut Outcome) -> Scenario {
         2 => vec![t::pick(&EXTS).0.to_string(), "html".into()],
         _ => vec!["txt".into(), "css".into(), "json".into()],
     };
+    let second = if t::chance(1, 4) { Some(Second { mount: t::pick(&["/mirror", "/v2/files"]).to_string(), same_mtime: t::chance(2, 3) }) } else { None };
     // requests
-    let m = mount.trim_end_matches('/').to_string();
+    let m1 = mount.trim_end_matches('/').to_string();
     let nreq = t::range(4, 20) as usize;
     let mut reqs = Vec::new();
     let mut later_names: Vec<String> = Vec::new();
@@ -160,6 +184,10 @@ pub fn generate(_cfg: &RunCfg, _out: &mut Outcome) -> Scenario {
             None
         };
         let method = if t::chance(1, 6) { "HEAD" } else { "GET" };
+        let m = match &second {
+            Some(s2) if t::chance(1, 2) => s2.mount.clone(),
+            _ => m1.clone(),
+        };
         let (path, kind): (String, &str) = if files.is_empty() || t::chance(1, 8) {
             (format!("{m}/{}", t::pick(&["nothing.txt", "", "index.html", "a"])), "random")
         } else {
@@ -185,7 +213,7 @@ pub fn generate(_cfg: &RunCfg, _out: &mut Outcome) -> Scenario {
         let path = if path.is_empty() { "/".to_string() } else { path };
         reqs.push(Req { method: method.into(), path, kind: kind.into(), mutate_before });
     }
-    Scenario { files, outside, mount, omit, reqs }
+    Scenario { files, outside, mount, omit, reqs, second }
 }
 
 pub fn run(cfg: &RunCfg, direct: Option<&serde_json::Value>) -> Outcome {
@@ -207,6 +235,24 @@ pub fn run(cfg: &RunCfg, direct: Option<&serde_json::Value>) -> Outcome {
 
 /// the directory model (DESIGN.md A.6): route -> (content type, bytes); Err = the configuration must be rejected
 pub fn model(sc: &Scenario) -> Result<BTreeMap<String, (String, Vec<u8>)>, String> {
+    let mut table = model_one(sc)?;
+    if let Some(s2) = &sc.second {
+        let mut other = sc.clone();
+        other.second = None;
+        other.mount = s2.mount.clone();
+        for f in other.files.iter_mut() {
+            f.content = alter(&f.content);
+        }
+        for (k, v) in model_one(&other)? {
+            if table.insert(k.clone(), v).is_some() {
+                return Err(format!("two files share the route {k}"));
+            }
+        }
+    }
+    Ok(table)
+}
+
+fn model_one(sc: &Scenario) -> Result<BTreeMap<String, (String, Vec<u8>)>, String> {
     let mut table: BTreeMap<String, (String, Vec<u8>)> = BTreeMap::new();
     let m = sc.mount.trim_end_matches('/').to_string();
     let valid_seg = |s: &str| -> bool {
@@ -291,6 +337,28 @@ fn execute(sc: &Scenario, out: &mut Outcome) {
     for o in &sc.outside {
         let _ = std::fs::write(base.join(o), b"OUTSIDE - must never be served");
     }
+    let root_b = base.join("www2");
+    if let Some(s2) = &sc.second {
+        out.probe("c19.two_directories_mounted");
+        let _ = std::fs::create_dir_all(&root_b);
+        for f in &sc.files {
+            let p = f.path.iter().fold(root_b.clone(), |a, s| a.join(s));
+            let _ = std::fs::create_dir_all(p.parent().unwrap());
+            let _ = std::fs::write(&p, alter(&f.content));
+        }
+        if s2.same_mtime {
+            out.probe("c19.same_path_size_mtime_other_bytes");
+            let when = std::time::UNIX_EPOCH + std::time::Duration::from_secs(1_700_000_000);
+            for r in [&root, &root_b] {
+                for f in &sc.files {
+                    let p = f.path.iter().fold(r.clone(), |a, s| a.join(s));
+                    if let Ok(fh) = std::fs::File::options().write(true).open(&p) {
+                        let _ = fh.set_modified(when);
+                    }
+                }
+            }
+        }
+    }
     if sc.files.iter().any(|f| f.path.iter().rev().skip(1).any(|d| d.contains('.'))) {
         out.probe("c19.dotted_directory_name");
     }
@@ -311,7 +379,19 @@ fn execute(sc: &Scenario, out: &mut Outcome) {
             2 => d.omit_extensions([omit[0], omit[1]]),
             _ => d.omit_extensions([omit[0], omit[1], omit[2]]),
         };
-        Ohkami::new((d, "/hello".GET(|| async { "hello" })))
+        match &sc.second {
+            Some(s2) => {
+                let d2 = leak(&s2.mount).Dir(leak(root_b.to_str().unwrap()));
+                let d2 = match omit.len() {
+                    0 => d2,
+                    1 => d2.omit_extensions([omit[0]]),
+                    2 => d2.omit_extensions([omit[0], omit[1]]),
+                    _ => d2.omit_extensions([omit[0], omit[1], omit[2]]),
+                };
+                Ohkami::new((d, d2, "/hello".GET(|| async { "hello" })))
+            }
+            None => Ohkami::new((d, "/hello".GET(|| async { "hello" }))),
+        }
     }));
     let cleanup = || {
         let _ = std::fs::remove_dir_all(&base);
